@@ -1,4 +1,4 @@
-import MlModel.Lemmas.TreeApply
+import MlModel.Lemmas.TreeNd
 /-!
 # C18 — tree views obey get/set laws and never mutate the viewed data
 
@@ -81,11 +81,23 @@ theorem C18_no_mutation_cells {h h' : Heap} (e : Extends h h') {r : Ref} (hr : r
 /-- **Reading a path after a copying set returns the value set** — the very object (`Ref`), for every heap
 (cyclic or not), every tree, existing and fresh paths (dict key, append, `SELF`), every value. -/
 theorem C18_get_set (strict : Bool) {h : Heap} {t v : Ref} {p : Path} {h' : Heap} {t' : Ref}
-    (hp : PlainSelf p) (hs : copyAndSet strict h t (.path p) v = (h', .ok t')) :
+    (hp : PlainSelf p) (hs : copyAndSet strict h t (.path p) v = (h', .ok t')) (hnd : NoNd h' t' p) :
     getItem h' t' (.path p) = .ok (.one v) := by
   rw [copyAndSet_path] at hs
-  have := setPath_get_set strict p h t v h' t' hp hs h' (fun _ _ _ => rfl)
+  have := setPath_get_set strict p h t v h' t' hp hs h' (fun _ _ _ => rfl) hnd
   simp [getItem, this, Except.map]
+
+/-- The side condition `NoNd` of `C18_get_set` (reading the path back does not index **into** an ndarray —
+such reads create new objects and obey the by-value law `C18_nd_get_set`) holds whenever the path could be
+read in the original tree; in particular for every tree without ndarray nodes on the path. -/
+theorem C18_get_set_existing (strict : Bool) {h : Heap} {t v : Ref} {p : Path} {h' : Heap} {t' : Ref} {x : Ref}
+    (hp : PlainSelf p) (hc : Closed h) (ht : t < h.size) (hg : get h t p = .ok x)
+    (hs : copyAndSet strict h t (.path p) v = (h', .ok t')) :
+    getItem h' t' (.path p) = .ok (.one v) := by
+  have hs' := hs
+  rw [copyAndSet_path] at hs'
+  exact C18_get_set strict hp hs
+    (setPath_noNd_of_get strict p h t v h' t' (· < h.size) hp hc.region ht ⟨x, hg⟩ hs' h' (fun _ _ _ => rfl))
 
 /-! ## C18_frame -/
 
@@ -250,6 +262,8 @@ theorem C18_items_terminates {h : Heap} {root : Ref} {n : Node} (w : WF h root) 
           exact List.mem_of_getElem? hi
         | leaf v => simp [Node.children] at hkc
         | null => simp [Node.children] at hkc
+        | nd _ _ _ => simp [Node.children] at hkc
+        | buf _ => simp [Node.children] at hkc
       generalize n.children = kcs at hmemrefs
       induction kcs with
       | nil => exact ⟨0, fun _ hkc => by cases hkc⟩
@@ -281,11 +295,20 @@ theorem C18_items_terminates {h : Heap} {root : Ref} {n : Node} (w : WF h root) 
 other (each later path w.r.t. each earlier one), on a heap without dangling references. -/
 theorem C18_update_get (strict : Bool) {h : Heap} {t : Ref} {other : List (Path × Ref)} {h' : Heap} {t' : Ref}
     (hc : Closed h) (ht : t < h.size) (hv : ∀ kv ∈ other, kv.2 < h.size) (hp : ∀ kv ∈ other, PlainSelf kv.1)
-    (hpw : other.Pairwise (fun a b => Diverge b.1 a.1))
+    (hpw : other.Pairwise (fun a b => Diverge b.1 a.1)) (hnd : NoNdSeq strict h t other)
     (hs : copyAndUpdate strict h t other = (h', .ok t')) : ∀ kv ∈ other, get h' t' kv.1 = .ok kv.2 := by
   cases other with
   | nil => intro kv hkv; cases hkv
-  | cons kv0 kvs => exact setMany_get strict _ h t h' t' hc ht hv hp hpw hs
+  | cons kv0 kvs => exact setMany_get strict _ h t h' t' hc ht hv hp hpw hnd hs
+
+/-- The side condition `NoNdSeq` (no read-back indexes into an ndarray) holds when every updated path could
+be read in the original tree and the paths pairwise leave each other. -/
+theorem C18_update_get_existing (strict : Bool) {h : Heap} {t : Ref} {other : List (Path × Ref)} {h' : Heap}
+    {t' : Ref} (hc : Closed h) (ht : t < h.size) (hv : ∀ kv ∈ other, kv.2 < h.size)
+    (hp : ∀ kv ∈ other, PlainSelf kv.1) (hpw : other.Pairwise (fun a b => Diverge b.1 a.1))
+    (hpw' : other.Pairwise (fun a b => Diverge a.1 b.1)) (hg : ∀ kv ∈ other, ∃ x, get h t kv.1 = .ok x)
+    (hs : copyAndUpdate strict h t other = (h', .ok t')) : ∀ kv ∈ other, get h' t' kv.1 = .ok kv.2 :=
+  C18_update_get strict hc ht hv hp hpw (NoNdSeq_of_gets strict other h t hc ht hv hp hpw' hg) hs
 
 /-- **`copy_and_update`: every path that leaves all updated paths reads as before.** -/
 theorem C18_update_frame (strict : Bool) {h : Heap} {t : Ref} {other : List (Path × Ref)} {h' : Heap} {t' : Ref}
@@ -302,6 +325,7 @@ theorem C18_multiset_get (strict : Bool) {h : Heap} {t values : Ref} {ks : List 
     (hc : Closed h) (ht : t < h.size) (hvals : ∀ v ∈ valuesOf h values, v < h.size)
     (hal : ¬ (ks.length == 1 && (valuesOf h values).length > 1) = true) (hlen : ks.length = (valuesOf h values).length)
     (hp : ∀ k ∈ ks, PlainSelf k) (hpw : ks.Pairwise (fun a b => Diverge b a))
+    (hnd : NoNdSeq strict h t (ks.zip (valuesOf h values)))
     (hs : copyAndSet strict h t (.multi ks) values = (h', .ok t')) :
     ∀ kv ∈ ks.zip (valuesOf h values), get h' t' kv.1 = .ok kv.2 := by
   simp only [copyAndSet, setItem] at hs
@@ -315,10 +339,10 @@ theorem C18_multiset_get (strict : Bool) {h : Heap} {t values : Ref} {ks : List 
   | ok d =>
     simp [finishSet] at hs
     obtain ⟨rfl, rfl⟩ := hs
-    refine setMany_get strict _ h t h1 d hc ht ?_ ?_ ?_ hsm
+    refine setMany_get strict _ h t h1 d hc ht ?_ ?_ ?_ hnd hsm
     · intro kv hkv; exact hvals kv.2 (List.of_mem_zip hkv).2
     · intro kv hkv; exact hp kv.1 (List.of_mem_zip hkv).1
-    · clear hsm hal hlen this hvals hp
+    · clear hsm hal hlen this hvals hp hnd
       generalize valuesOf h values = vals
       induction ks generalizing vals with
       | nil => simp
@@ -356,9 +380,159 @@ theorem C18_apply_reads (strict : Bool) {f : LeafFn} (hf : FnOK f) {h : Heap} {r
     {q : Path} {x : Ref} (wq : LeafWalk h root q x) : ∃ v, get h' t' q = .ok v ∧ ImageOf f h v x :=
   (applyFn_spec strict hf hc hg hnn w hn hch ha).2 q x wq
 
+/-! ## ndarray nodes (C18N): buffers are cells of the heap, views share them -/
+
+/-- **No copying operation changes an element of a pre-existing ndarray**: `Extends` (the conclusion of the
+three `C18_no_mutation_*` theorems above) covers buffer cells, so every array object of the original heap
+still shows the same window of the same buffer with the same elements — whether or not the key path
+indexed into it, and whatever other array objects share its buffer. -/
+theorem C18_nd_no_mutation {h h' : Heap} (e : Extends h h') {r b off : Nat} {shape : List Nat}
+    (hr : h[r]? = some (.nd b off shape)) (hb : b < h.size) :
+    h'[r]? = some (.nd b off shape) ∧ ndElems h' b off shape = ndElems h b off shape := by
+  refine ⟨e.get_some hr, ?_⟩
+  simp only [ndElems, bufOf, e.2 b hb]
+
+/-- **A copying set whose path indexes into an ndarray returns a new array object on a new buffer** (cells
+`h.size + 1` and `h.size`: allocated by this very call, so the result shares memory with no array that
+existed before).  This is what the seeded change C18-m1 (`tree[:]`, a view, instead of `copy.copy(tree)`)
+breaks. -/
+theorem C18_nd_copy_fresh (strict : Bool) {h : Heap} {t v : Ref} {k : PKey} {rest : Path} {h' : Heap} {t' : Ref}
+    {b off : Nat} {shape : List Nat} (hk : k.isPlain) (hn : h[t]? = some (.nd b off shape))
+    (hs : copyAndSet strict h t (.path (k :: rest)) v = (h', .ok t')) :
+    t' = h.size + 1 ∧ h'[t']? = some (.nd h.size 0 shape) ∧ Extends h h' := by
+  rw [copyAndSet_path] at hs
+  obtain ⟨h1, _, h3⟩ := setPath_nd_result (PKey.isPlain_ne_self hk) (PKey.isPlain_ne_skip hk) hn hs
+  refine ⟨h1, h3, ?_⟩
+  have := setPath_extends strict h t (k :: rest) v; rw [hs] at this; exact this
+
+/- FULL STATEMENT (not proved; the `_partial` theorems below are its instance "ONE key below the array, int
+value"): for every path `p ++ q` where `p` reads (by reference) an ndarray `A` and `q = k₁ … kₘ` are in-range
+indices into it (m ≤ ndim), and every value `v` that numpy can broadcast to the shape of `A[k₁]…[kₘ]`:
+the in-place set writes exactly the window of that item in `A`'s buffer (nothing else in the heap), the
+copying set returns a tree whose array at `p` is new, on a new buffer equal to `A`'s elements with exactly that
+window overwritten, `getV` of `p ++ q` afterwards shows the broadcast of `v`, and `getV` of every path that
+leaves `p ++ q` shows what it showed before.  Missing: the induction over the levels `m ≥ 2` (each level writes
+the child copy back into the parent window: `splice` composed with `slice`) and `length (bcast s t xs) = prod t`. -/
+
+/-- **`set(..., in_place=True)` of one item of an ndarray writes exactly the addressed item**: the call
+succeeds and returns the same array object; the buffer afterwards is the buffer before with the window of
+item `j` (`prod inner` elements from `off + j * prod inner`) overwritten by the value; every other
+pre-existing cell — every other object, and the array object itself — is unchanged. -/
+theorem C18_nd_inplace_exact_partial (strict : Bool) {h : Heap} {t v b off n : Nat} {inner : List Nat} {k : PKey}
+    {i : Int} {j : Nat} {x : Int} {xs : List Int} (hn : h[t]? = some (.nd b off (n :: inner)))
+    (hb : h[b]? = some (.buf xs)) (hv : h[v]? = some (.leaf (.int x))) (hk : k.isPlain)
+    (hi : k.asInt = some i) (hj : resolveIdx n i = some j) :
+    (setPath strict true h t [k] v).2 = .ok t ∧
+    (setPath strict true h t [k] v).1[b]? =
+      some (.buf (splice xs (off + j * prod inner) (List.replicate (prod inner) x))) ∧
+    ∀ c, c < h.size → c ≠ b → (setPath strict true h t [k] v).1[c]? = h[c]? := by
+  have hvlt := lt_size_of_get hv
+  have hblt := lt_size_of_get hb
+  have hco : coerce (ndItem h b (off + j * prod inner) inner).1 v inner = some (List.replicate (prod inner) x) :=
+    coerce_int (by rw [ndItem_get_lt _ _ _ _ hvlt]; exact hv) inner
+  rw [setPath_nd_inplace_one strict hn (PKey.isPlain_ne_self hk) (PKey.isPlain_ne_skip hk) hi hj hco]
+  refine ⟨rfl, ?_, ?_⟩
+  · exact ndWrite_get_eq (by rw [ndItem_get_lt _ _ _ _ hblt]; exact hb) _ _
+  · intro c hc hne
+    simp only
+    rw [ndWrite_get_ne _ _ _ hne, ndItem_get_lt _ _ _ _ hc]
+
+/-- **`copy_and_set` of one item of an ndarray**: the result is a new array object (cell `h.size + 1`) of the
+same shape on a new buffer (cell `h.size`) that holds the elements of the original with exactly the window
+of item `j` overwritten by the value; the heap is only extended (the original array, its buffer and every
+view of it are untouched). -/
+theorem C18_nd_copy_exact_partial (strict : Bool) {h : Heap} {t v b off n : Nat} {inner : List Nat} {k : PKey}
+    {i : Int} {j : Nat} {x : Int} (hn : h[t]? = some (.nd b off (n :: inner)))
+    (hv : h[v]? = some (.leaf (.int x))) (hk : k.isPlain) (hi : k.asInt = some i) (hj : resolveIdx n i = some j) :
+    (copyAndSet strict h t (.path [k]) v).2 = .ok (h.size + 1) ∧
+    (copyAndSet strict h t (.path [k]) v).1[h.size + 1]? = some (.nd h.size 0 (n :: inner)) ∧
+    (copyAndSet strict h t (.path [k]) v).1[h.size]? =
+      some (.buf (splice (ndElems h b off (n :: inner)) (j * prod inner) (List.replicate (prod inner) x))) ∧
+    Extends h (copyAndSet strict h t (.path [k]) v).1 := by
+  have hvlt := lt_size_of_get hv
+  have hext := C18_no_mutation_copy_and_set strict h t (.path [k]) v
+  rw [copyAndSet_path] at hext ⊢
+  have hcv : (ndCopy h b off (n :: inner)).1[v]? = h[v]? := (ndCopy_extends h b off (n :: inner)).2 v hvlt
+  have hsz : (ndCopy h b off (n :: inner)).1.size = h.size + 2 := by rw [ndCopy_fst]; simp
+  have hco : coerce (ndItem (ndCopy h b off (n :: inner)).1 h.size (j * prod inner) inner).1 v inner =
+      some (List.replicate (prod inner) x) :=
+    coerce_int (by rw [ndItem_get_lt _ _ _ _ (by omega), hcv]; exact hv) inner
+  have hbuf : (ndCopy h b off (n :: inner)).1[h.size]? = some (.buf (ndElems h b off (n :: inner))) := by
+    rw [ndCopy_fst, push_get_lt _ _ (by simp)]; exact push_get_size _ _
+  have hnd : (ndCopy h b off (n :: inner)).1[h.size + 1]? = some (.nd h.size 0 (n :: inner)) := by
+    rw [ndCopy_fst]
+    have := push_get_size (h.push (.buf (ndElems h b off (n :: inner)))) (.nd h.size 0 (n :: inner))
+    simpa using this
+  rw [setPath_nd_copy_one strict hn (PKey.isPlain_ne_self hk) (PKey.isPlain_ne_skip hk) hi hj hco] at hext ⊢
+  refine ⟨rfl, ?_, ?_, hext⟩
+  · simp only
+    rw [ndWrite_get_ne _ _ _ (by omega), ndItem_get_lt _ _ _ _ (by omega), hnd]
+  · exact ndWrite_get_eq (by rw [ndItem_get_lt _ _ _ _ (by omega)]; exact hbuf) _ _
+
+/-- **Get after set, by value, for an item of an ndarray**: in a buffer that holds the window of item `j`
+(`o + len ≤ size`), the elements read back from that window after it was overwritten by `ys` are `ys`
+— with `C18_nd_inplace_exact_partial` / `C18_nd_copy_exact_partial`: `arr[k]` read after the set shows the value set
+(broadcast to the item's shape); and the elements outside the window are the old ones (the two `splice`
+formulas), which is the frame law inside the array. -/
+theorem C18_nd_get_set (xs : List Int) (o : Nat) (ys : List Int) (hb : o + ys.length ≤ xs.length) :
+    slice (splice xs o ys) o ys.length = ys ∧ (splice xs o ys).length = xs.length ∧
+    (splice xs o ys).take o = xs.take o ∧ (splice xs o ys).drop (o + ys.length) = xs.drop (o + ys.length) := by
+  refine ⟨slice_splice xs o ys hb, splice_length xs o ys hb, ?_, ?_⟩
+  · unfold splice
+    have h1 : (xs.take o).length = o := by simp; omega
+    rw [List.append_assoc, List.take_append_of_le_length (by omega)]
+    rw [List.take_of_length_le (by omega)]
+  · unfold splice
+    have h1 : (xs.take o ++ ys).length = o + ys.length := by simp; omega
+    rw [List.drop_append, h1]
+    simp
+    omega
+
+/-- **The complete read `getV` (which may index into ndarrays) agrees with the reference-valued read `get`**
+wherever `get` succeeds: all `get`-theorems of this file are theorems about `TreeMapView.__getitem__`. -/
+theorem C18_getV_agrees {h : Heap} {t : Ref} {p : Path} {x : Ref} (hg : get h t p = .ok x) :
+    ∃ m, getV h t p = .ok (.obj x, m) := by
+  unfold Tree.get at hg
+  cases hc : getCore h t p with
+  | error e => rw [hc] at hg; cases hg
+  | ok y =>
+    rw [hc] at hg
+    simp only [Except.map, Except.ok.injEq] at hg
+    subst hg
+    exact ⟨y.2, getV_of_getCore h p t y hc⟩
+
 /-! ## non-vacuity: a concrete heap satisfies every hypothesis used above (tests, not theorems) -/
 
 section Examples
+
+/-- ndarray nodes: `{'a': A, 'row': A[1]}` with `A = arange(6).reshape(2, 3)` — the array object `A` (cell 1)
+and the view of its row 1 (cell 2) share the buffer cell 0; the dict is cell 3, the value `7` cell 4. -/
+private def hA : Heap :=
+  #[.buf [0, 1, 2, 3, 4, 5], .nd 0 0 [2, 3], .nd 0 3 [3], .dict [(.str "a", 1), (.str "row", 2)], .leaf (.int 7)]
+
+example : Closed hA := closedB_sound (by decide)
+/-- the complete read: `view[Key.a.at(1)]` is a new view of the SAME buffer, `...at(-1)` a scalar; the
+reference-valued read is undefined there -/
+example : getV hA 3 [.str "a", .idx 1] = .ok (.view 0 3 [3], true) := rfl
+example : getV hA 3 [.str "a", .idx 1, .idx (-1)] = .ok (.scalar 5, true) := rfl
+example : get hA 3 [.str "a", .idx 1] = .error .other := rfl
+example : NoNd hA 3 [.str "a"] := by simp [NoNd, hA, index, Node.slotGet, dictGet, PKey.toDKey]
+/-- copying set `a[1][2] = 7`: new dict (cell 5), new array (cell 7) on a new buffer (cell 6) `[0,1,2,3,4,7]`;
+the old buffer (cell 0) is untouched, so `A` and its row view still read `[3, 4, 5]` -/
+example : (copyAndSet false hA 3 (.path [.str "a", .idx 1, .idx 2]) 4).2 = .ok 5 := rfl
+example : (copyAndSet false hA 3 (.path [.str "a", .idx 1, .idx 2]) 4).1[6]? = some (.buf [0, 1, 2, 3, 4, 7]) := rfl
+example : (copyAndSet false hA 3 (.path [.str "a", .idx 1, .idx 2]) 4).1[0]? = some (.buf [0, 1, 2, 3, 4, 5]) := rfl
+/-- the same in place: the caller's buffer is written — and the row view (cell 2) sees it -/
+example : (setPath false true hA 3 [.str "a", .idx 1, .idx 2] 4).1[0]? = some (.buf [0, 1, 2, 3, 4, 7]) := rfl
+example : pathCells hA 3 [.str "a", .idx 1, .idx 2] = [3, 1, 0] := rfl
+/-- `key == len(arr)`: AssertionError; a row assigned from a view of the same buffer -/
+example : (copyAndSet false hA 3 (.path [.str "a", .idx 2]) 4).2 = .error .assertion := rfl
+example : (copyAndSet false hA 1 (.path [.idx 0]) 2).1[5]? = some (.buf [3, 4, 5, 3, 4, 5]) := rfl
+/-- hypotheses of `C18_nd_inplace_exact_partial` / `C18_nd_copy_exact_partial` / `C18_nd_get_set` on `A[1] = 7` -/
+example : hA[1]? = some (.nd 0 0 [2, 3]) ∧ hA[0]? = some (.buf [0, 1, 2, 3, 4, 5]) ∧ hA[4]? = some (.leaf (.int 7)) ∧
+    (PKey.idx 1).isPlain = true ∧ (PKey.idx 1).asInt = some 1 ∧ resolveIdx 2 1 = some 1 := by decide
+example : (0 + 1 * prod [3]) + (List.replicate (prod [3]) (7 : Int)).length ≤ [0, 1, 2, 3, 4, (5 : Int)].length := by decide
+example : (copyAndSet false hA 1 (.path [.idx 1]) 4).1[5]? = some (.buf [0, 1, 2, 7, 7, 7]) := rfl
 
 /-- `[{'a': 1, 'b': 2}, 1]` at cell 3 (the leaf `1` is shared), a value `9` at cell 4, a tuple at cell 5. -/
 private def h0 : Heap :=
